@@ -231,8 +231,10 @@ func (in *c01Inst) compare(s c01Shape) (out []c01Diff) {
 	if len(dr.Interim) != len(vr.Interim) {
 		add("response/interim", fmt.Sprintf("client received %d interim responses, backend sent %d", len(vr.Interim), len(dr.Interim)))
 	}
+	// (the documented ID headers may ride on an interim response as they do on the final one)
+	iign := append([]string{"date"}, in.idHdrs...)
 	for i := range dr.Interim {
-		if dr.Interim[i].Status != vr.Interim[i].Status || !reflect.DeepEqual(wire.EndToEnd(dr.Interim[i].Header, "date"), wire.EndToEnd(vr.Interim[i].Header, "date")) {
+		if dr.Interim[i].Status != vr.Interim[i].Status || !reflect.DeepEqual(wire.EndToEnd(dr.Interim[i].Header, iign...), wire.EndToEnd(vr.Interim[i].Header, iign...)) {
 			add("response/interim", fmt.Sprintf("interim response differs: %+v vs %+v", vr.Interim[i], dr.Interim[i]))
 		}
 	}
@@ -457,7 +459,17 @@ func TestVerifC01(t *testing.T) {
 		jobs = append(jobs, job{"round_robin", c01Shape{Method: "POST", Target: "/r", ReqSize: sz, Status: 200, RespSize: sz, RespFrame: "chunked"}},
 			job{"plugins", c01Shape{Method: "POST", Target: "/r", ReqSize: sz, ReqChunk: true, Status: 200, RespSize: sz, RespFrame: "length"}})
 	}
-	for _, s := range c01Twelve() {
+	// the set every remaining dimension is crossed with: twelve shapes; in the thorough tier the
+	// whole quick core product (methods x request sizes x framings x statuses incl. interim
+	// responses x response sizes x response framings)
+	crossing := c01Twelve()
+	if th {
+		crossing = c01Core(false)
+		for _, s := range c01Core(false) {
+			jobs = append(jobs, job{"ids:both", s}, job{"plugins", s}, job{"timeouts", s})
+		}
+	}
+	for _, s := range crossing {
 		fd := s
 		fd.FixedDate = true
 		jobs = append(jobs, job{"round_robin", fd}, job{"timeouts", s})
